@@ -59,7 +59,9 @@ fn op_cpr(a: &str, b: &str) -> String {
     }
     match (alt(a), alt(b)) {
         (Some(x), Some(y)) => match cpr::get_position((&x, &y)) {
-            Some(p) => format!("POS some lat={:.6} lon={:.6}", p.latitude * 1000.0, p.longitude * 1000.0),
+            // `rng` is decided on the f64 values themselves (the printed decimals round: 179.99999999999997 prints as 180.000000)
+            Some(p) => format!("POS some lat={:.6} lon={:.6} rng={}", p.latitude * 1000.0, p.longitude * 1000.0,
+                if p.latitude >= -90.0 && p.latitude <= 90.0 && p.longitude >= -180.0 && p.longitude < 180.0 { "ok" } else { "out" }),
             None => "POS none".into(),
         },
         _ => "POS n/a".into(),
